@@ -958,7 +958,7 @@ func genMalformed(w *kit.Out, r *kit.Rand, id string, n, ps int) {
 	w.Op("vb %d %s", i, randMod(r, i, total))
 }
 
-// the known finding: a header with an empty hash accepts malformed proofs
+// regression of a fixed defect (96b4d2262f): a header with an empty hash used to accept malformed proofs
 func genNilRoot(w *kit.Out, r *kit.Rand, id string, n, ps int) {
 	w.Case(id)
 	data := r.Bytes(n)
@@ -970,7 +970,7 @@ func genNilRoot(w *kit.Out, r *kit.Rand, id string, n, ps int) {
 	w.Op("rawheader %d e", total)
 	i := r.Intn(total)
 	w.Op("add %d", i)       // honest proof does not hash to an empty root: rejected
-	w.Op("add %d dropa", i) // aunt list too short → computed hash is nil → equals the empty root
+	w.Op("add %d dropa", i) // aunt list too short → computed hash is nil → must NOT match the empty root
 	k := (i + 1) % total
 	w.Op("add %d bytes=%s releaf dropa", k, hex.EncodeToString(r.Bytes(1+r.Intn(8)))) // arbitrary content
 	w.Op("getpart %d", k)
@@ -1044,18 +1044,18 @@ func gen(w *kit.Out, r *kit.Rand, tier string) {
 		genHonest(w, rb, fmt.Sprintf("shape/t%d/ps%d", total, ps), n, ps)
 		genCorrupt(w, rb, fmt.Sprintf("shape-corrupt/t%d/ps%d", total, ps), n, ps, 40)
 	}
-	maxSmall := 6
+	maxSmall := 8
 	if thorough {
-		maxSmall = 12
+		maxSmall = 17
 	}
 	for total := 1; total <= maxSmall; total++ {
 		genSmallExhaustive(w, rb, total)
 	}
 	// (ii) structured random: mostly valid
 	rr := r.Fork()
-	nr := 120
+	nr := 300
 	if thorough {
-		nr = 900
+		nr = 6000
 	}
 	for c := 0; c < nr; c++ {
 		ps := kit.Pick(rr, partSizes)
@@ -1074,16 +1074,19 @@ func gen(w *kit.Out, r *kit.Rand, tier string) {
 	}
 	if thorough {
 		// the real part size, multi-part block; and one large one-byte-part block
-		for c := 0; c < 2; c++ {
-			genHonest(w, rr, fmt.Sprintf("big/%d", c), 65536*2+rr.Intn(70000), 65536)
+		for c := 0; c < 3; c++ {
+			genHonest(w, rr, fmt.Sprintf("big/%d", c), 65536*(1+c)+rr.Intn(70000), 65536)
 		}
+		genCorrupt(w, rr, "big/real-partsize", 65536*3+rr.Intn(65536), 65536, 30)
 		genCorrupt(w, rr, "big/ps1", 3000+rr.Intn(1000), 1, 10)
+		genHonest(w, rr, "big/ps1-4096", 4096, 1)
+		genCorrupt(w, rr, "big/ps2", 4096, 2, 20)
 	}
 	// (iii) malformed stream
 	rm := r.Fork()
-	nm := 40
+	nm := 80
 	if thorough {
-		nm = 300
+		nm = 1500
 	}
 	for c := 0; c < nm; c++ {
 		ps := kit.Pick(rm, partSizes)
